@@ -114,7 +114,9 @@ def run(F, R, tier, cfg):
         if not ok:
             R.violation("GS-cache-bound", MERGE + "/loop-guard", "the merge loop can count past the configured maximum", F.loc(MERGE))
         truncs = [c for c in mb.calls if not c.indirect and c.decl.endswith("::truncate")]
-        grows = [c for c in mb.calls if not c.indirect and c.decl.endswith("::extend")]
+        # every way the cached vector can grow inside the merge (extend, append, push, insert, extend_from_slice …)
+        grows = [c for c in mb.calls if not c.indirect and re.search(r"::(extend|append|push|insert|extend_from_slice|extend_from_within|resize|resize_with)$", c.decl)
+                 and c.bb in mb.live_blocks() and "param:1" in tokens(mb.origin(c.args[0]))]
         ok = len(truncs) >= 2 and bool(grows) and all(mb.dominates(t.bb, g.bb) for t in truncs for g in grows)
         R.ob("GS-cache-bound", "merge: truncate(kept_existing), truncate(kept_new) dominate extend", ok, True)
         if not ok:
@@ -141,7 +143,14 @@ def run(F, R, tier, cfg):
             if o[0] == "call" and o[1].endswith("::max") and len(o[2]) == 2:
                 lo = tokens(o[2][1])
                 hi = o[2][0]
-                if "field:min_refetch_delay" in lo and any(t.endswith("as core::ops::arith::Add<core::time::Duration>>::add") for t in lo):
+                # the lower clamp is  now + min_refetch_delay  with `now` the time of *this* lookup (a parameter of the
+                # coroutine), not a stored instant: a late tick must still wait the full delay
+                lo_t = o[2][1]
+                base_t = PN._peel_refs(lo_t[2][0]) if (lo_t[0] == "call" and len(lo_t[2]) == 2) else ("top",)
+                while base_t[0] == "cast":
+                    base_t = base_t[2]
+                lo_now = not (base_t[0] == "field" and base_t[2] in ("next_refetch", "last_fetch", "last_refetch"))
+                if "field:min_refetch_delay" in lo and lo_now and any(t.endswith("as core::ops::arith::Add<core::time::Duration>>::add") for t in lo):
                     if hi[0] == "call" and hi[1].endswith("::min"):
                         a, c = tokens(hi[2][0]), tokens(hi[2][1])
                         if "field:refetch_interval" in a and "field:min_expiry_threshold" in c and any(t.endswith("::earliest_expiry") for t in c):
